@@ -112,8 +112,10 @@ func (v *Vue) evalSlot(ctx VueContext, node *html.Node, slotScope *SlotScope) ([
 					}
 				}
 
-				// Evaluate the template content (children of the template)
-				children, err := v.evaluateChildren(ctx, slotContent.TemplateNode, 0)
+				// Evaluate a private copy of the template content (children of the template):
+				// the template node is shared by every use of the slot, and evaluation
+				// rewrites include and template nodes in place
+				children, err := v.evaluateChildren(ctx, helpers.DeepCloneNode(slotContent.TemplateNode), 0)
 				if err != nil {
 					return nil, err
 				}
